@@ -25,7 +25,8 @@ package main
 // UndefinedFilter, SyntaxError for objects and block tags; plain tags re-make the text with
 // Errorf, so a nil Cause() is allowed there); the message is non-empty and contains the offending
 // filter/tag name where the library's text carries one. For an error inside an included file the
-// property does not fix the line: only Path and the error itself are checked.
+// line is the include tag's line plus the newlines of the file before the failing construct (checked for the
+// files whose position is known: elInnerNewlines); at the nesting limit only Path and the error itself are checked.
 
 import (
 	"fmt"
@@ -191,6 +192,9 @@ var elFS = [][2]string{
 	{"sub/zqloop.html", "a{% include 'sub/zqback.html' %}"},
 	{"sub/zqback.html", "b\n{% include 'sub/zqloop.html' %}"},
 }
+
+// the newlines of each file of elFS that fails, before its failing tag or object
+var elInnerNewlines = map[string]int{"zqbad.html": 1, "zqfail.html": 2, "sub/zqdiv.html": 3, "zqtag.html": 1}
 
 // ---- block grammar of the standard tags (for the unbalanced-block expectations) -----------------
 
@@ -592,6 +596,23 @@ func errlocCase(r *Run, cl string, cfg engineCfg, path string, start int, src st
 	wantLine := start + strings.Count(src[:off], "\n")
 	if !k.noLine && se.LineNumber() != wantLine {
 		viol("line", fmt.Sprintf("LineNumber() = %d, the failing tag/object begins on line %d; error: %s", se.LineNumber(), wantLine, msg))
+	}
+	if k.name == "include-error-inside" {
+		// the line of an error inside an included file IS fixed (C07 run_error_located_at_token): the file is parsed at
+		// the include tag's line, so it is that line plus the newlines of the FILE before the failing tag/object
+		best, add := -1, 0
+		for name, n := range elInnerNewlines {
+			if i := strings.Index(src[off:], name); i >= 0 && (best < 0 || i < best) {
+				best, add = i, n
+			}
+		}
+		if best >= 0 {
+			r.Count("errloc-include-inner-line-checked")
+		}
+		if best >= 0 && se.LineNumber() != wantLine+add {
+			viol("line", fmt.Sprintf("LineNumber() = %d, the include tag begins on line %d and the failing tag/object of the file follows %d newlines: expected %d; error: %s",
+				se.LineNumber(), wantLine, add, wantLine+add, msg))
+		}
 	}
 	if got := cfg.canonPath(se.Path()); got != path {
 		viol("path", fmt.Sprintf("Path() = %q, parsed with %q; error: %s", got, path, msg))
